@@ -762,7 +762,9 @@ fn body_bits<const B: usize, const L: usize, const NB: usize>(c: &Case, rec: &mu
 
 fn strat_nt(bits: usize) -> BoxedStrategy<Case> {
     let a_sel = prop_oneof![2 => pair(bits), 1 => (uint_smallish(bits), uint_smallish(bits)).prop_map(|(a, b)| (a, b, 9u64))];
-    let exp = prop_oneof![4 => 0u64..=70, 1 => index_around(bits, 3), 1 => prop_oneof![Just(255u64), Just(256), Just(65535), Just(65536), Just(u32::MAX as u64)], 1 => any::<u32>().prop_map(|x| x as u64)];
+    let exp = prop_oneof![4 => 0u64..=70, 1 => index_around(bits, 3), 1 => prop_oneof![Just(255u64), Just(256), Just(65535), Just(65536), Just(u32::MAX as u64)], 1 => any::<u32>().prop_map(|x| x as u64),
+        // multiples of 2^BITS plus a little: exponents that wrap to something small in a narrow type
+        1 => (1u64..8, 0u64..4).prop_map(move |(k, j)| ((k << bits.min(28)) + j).min(u32::MAX as u64))];
     (a_sel, uint(bits), limb(), limb(), text(bits), bytes_for(bits), exp)
         .prop_map(|((a, b, k), cc, p0, p1, (s, radix, _fs), bytes, e)| {
             Case::new().l(a).l(b).l(cc).n(k).n(p0).n(p1).n(radix).n(e).b(bytes).s(s)
@@ -893,7 +895,26 @@ fn body_nt<const B: usize, const L: usize>(c: &Case, rec: &mut Rec) -> R {
             agree(rec, "PrimInt::pow", catch(|| <T<B, L> as nt::PrimInt>::pow(a, e32)), &r)?;
             rec.class_if(r != catch(|| a.saturating_pow(T::<B, L>::from(e32))), "disc:pow:wrapping<->saturating");
         } else {
-            rec.class("PrimInt::pow:exponent_excluded");
+            // the exponent is not representable in Self, so there is no inherent call with the
+            // same arguments: the facade may panic (the pinned tree does: Self::from(exp)), or
+            // return a^exp mod 2^BITS as the inherent methods define it (computed here by
+            // square-and-multiply over the inherent wrapping_mul); any other value is a wrong
+            // forward
+            rec.class("PrimInt::pow:exponent_beyond_width");
+            rec.eval(1);
+            match catch(|| <T<B, L> as nt::PrimInt>::pow(a, e32)) {
+                Err(_) => rec.class("PrimInt::pow:exponent_beyond_width:panics"),
+                Ok(got) => {
+                    let mut acc = if B == 0 { T::<B, L>::ZERO } else { T::<B, L>::from(1u8) };
+                    for i in (0..32).rev() {
+                        acc = acc.wrapping_mul(acc);
+                        if (e32 >> i) & 1 == 1 {
+                            acc = acc.wrapping_mul(a);
+                        }
+                    }
+                    rec.ensure("PrimInt::pow", "differs_from_inherent", got == acc, || format!("pow({a}, {e32}) with an exponent beyond the width: facade {got}, inherent multiplication gives {acc}"))?;
+                }
+            }
         }
     }
 
@@ -1133,7 +1154,7 @@ fn main() {
         assumptions: vec![
             "the inherent methods are the reference (decided independently by C01-C13); a defect shared by facade and inherent method is invisible here by construction",
             "x86-64 little-endian target only (to_ne/from_ne = le, to_be/from_be = swap_bytes)",
-            "excluded: PrimInt::pow with an exponent that does not fit the width; swap_bytes/from_be/to_be for BITS % 8 != 0; negative amounts for signed shift operators",
+            "PrimInt::pow with an exponent that does not fit the width may panic or must equal a^exp mod 2^BITS by inherent multiplication; excluded: swap_bytes/from_be/to_be for BITS % 8 != 0; negative amounts for signed shift operators",
             "not asserted (ambiguous mapping): ToPrimitive::to_f32/to_f64 and FromPrimitive::from_f32/from_f64 defaults, NumCast from floats and from Uint values above u128::MAX, Integer::next_multiple_of/prev_multiple_of defaults",
             "harness profile has debug-assertions and overflow-checks on",
         ],
@@ -1154,10 +1175,9 @@ fn main() {
             m.insert(
                 "excluded_inputs".into(),
                 json!([
-                    "PrimInt::pow(u32) with an exponent that does not fit the width (Self::from(exp) panics; no inherent call exists)",
                     "PrimInt::swap_bytes / from_be / to_be for BITS % 8 != 0 (documented as not well defined)",
                     "negative amounts for the signed shift operator impls",
-                    "Uint-typed shift amounts with non-zero bits above bit 63 (the inherent methods take usize; DESIGN defect 4, property C05)"
+                    "(none for shift amounts: Uint-typed amounts >= 2^64 are compared at the saturated amount)"
                 ]),
             );
             m.insert(
